@@ -1,7 +1,49 @@
-(* C01: statements only.  Each closed by `exact`, each followed by Print Assumptions. *)
-From QSX Require Import LP.CertSound.
+(* C01  OPTIMAL is only ever reported together with an exact optimality certificate.
+   Statements only: each closed by `exact`, each followed by Print Assumptions. *)
+From QSX Require Import LP.CertSound LP.OptTestSound LP.UserSound LP.DriverSound.
+Local Open Scope Q_scope.
 
+(* 1. the oracle by which real answers are judged is sound (all LPs, both readings of the sentinel) *)
 Theorem C01_checker_sound :
   forall I P z y v, check_kkt I P z y v = true -> is_optimum I P (qnth z) v.
 Proof. exact check_kkt_sound. Qed.
 Print Assumptions C01_checker_sound.
+
+(* 2. what the library's own test accepts is a true optimum of the internal form (literal bounds) *)
+Theorem C01_opt_test_sound_literal :
+  forall P ns B ps ds s, wf_ilp P = true -> wf_logicals (skipn ns (i_cols P)) 0 = true ->
+    opt_test P ns B ps ds = Some s ->
+    is_optimum inf_none P (qnth (sx s ++ sslack s)) (sval s).
+Proof. exact opt_test_sound_lit. Qed.
+Print Assumptions C01_opt_test_sound_literal.
+
+(* 3. ... and, when no component sits on a sentinel bound, a true optimum of the LP the user
+      defined through the API (senses, ranges, infinite bounds) *)
+Theorem C01_opt_test_sound_user :
+  forall M U B ps ds s, 0 < M ->
+    opt_test (to_internal M U) (un U) B ps ds = Some s ->
+    no_sentinel M (to_internal M U) (sx s ++ sslack s) = true ->
+    uis_optimum M U (qnth (sx s ++ sslack s)) (sval s).
+Proof.
+  intros M U B ps ds s HM T NS. apply user_optimum; [exact HM|].
+  exact (opt_test_sound_inf M _ _ B ps ds s (to_internal_wf M U) (to_internal_wf_logicals M U) T NS).
+Qed.
+Print Assumptions C01_opt_test_sound_user.
+
+(* 4. the driver: for EVERY floating point oracle and EVERY rational re-solve oracle (any precision,
+      pricing, scaling, warm start, limit), OPTIMAL leaves through an exit other than ladder
+      exhaustion only with a cache that passed the test *)
+Theorem C01_driver_optimal_sound_partial :
+  forall M P ns float_solve basis_status ebasis max_iter a,
+    let r := exact_solver M P ns float_solve basis_status ebasis max_iter a in
+    r_exit r <> ExitLadderExhausted -> r_rval r = false -> r_status r = StOptimal ->
+    exists s B ps ds, r_sol r = Some s /\ opt_test P ns B ps ds = Some s.
+Proof. exact driver_optimal_sound_partial. Qed.
+Print Assumptions C01_driver_optimal_sound_partial.
+
+(* 5. the full statement (without the exit-label premise) is FALSE of the faithful model *)
+Theorem C01_driver_optimal_refuted :
+  exists fs bs, let r := exact_solver 1 P0 0 fs bs None 12 PrimalS in
+    r_rval r = false /\ r_status r = StOptimal /\ r_sol r = None.
+Proof. exact driver_optimal_refuted. Qed.
+Print Assumptions C01_driver_optimal_refuted.
